@@ -70,10 +70,12 @@ func NewReloadableOrchestrator(downstream base.Orchestrator, initiateReload Init
 
 // NewSink creates a new reloadable sink for an input source (e.g. incoming TCP connection)
 func (orc *ReloadableOrchestrator) NewSink(clientAddress string, clientNumber base.ClientNumber) base.BufferReceiverSink {
-	newDownstream := orc.downstream.NewSink(clientAddress, clientNumber)
-
 	lockT := orc.downstreamMutex.RLock() // only read-lock since we assume clientNumber is unique and nobody else is accessing it
 	defer orc.downstreamMutex.RUnlock(lockT)
+
+	// the downstream orchestrator must be read under the lock, or a concurrent reload could shut it down in between
+	// and the sink created here would belong to a dead orchestrator and never be closed or renewed
+	newDownstream := orc.downstream.NewSink(clientAddress, clientNumber)
 
 	if orc.downstreamSinks[clientNumber] != nil {
 		orc.logger.WithFields(logger.Fields{
